@@ -168,7 +168,7 @@ def obligations(tier):
         obs.append(dict(name=f"roundtrip 1 note /{d}", func="ob_roundtrip", args=((d,), 2, 1, 8, True), budget_s=b, bounds=f"numerator 0..{8*d-1} over {d}, 2 columns, keysound symbolic"))
     obs.append(dict(name="roundtrip 1 note /4 3 players", func="ob_roundtrip", args=((4,), 2, 3, 4, True), budget_s=b, bounds="player 0..2 symbolic (skipped players)"))
     for ds in pairs:
-        obs.append(dict(name=f"roundtrip 2 notes /{ds}", func="ob_roundtrip", args=(ds, 2, 1, (2 if max(ds) >= 48 else 4) if tier == "quick" else 8, False), budget_s=b,
+        obs.append(dict(name=f"roundtrip 2 notes /{ds}", func="ob_roundtrip", args=(ds, 2, 1, (2 if max(ds) >= 48 else 4) if tier == "quick" else (4 if max(ds) >= 48 else 8), False), budget_s=b,
                         bounds=f"two notes, denominators {ds}, beats in [0,{4 if tier == 'quick' else 8}), sorted unique positions"))
     obs.append(dict(name="roundtrip 2 notes /(1,2) 2 players", func="ob_roundtrip", args=((1, 2), 2, 2, 4, True), budget_s=b, bounds="two notes, players 0..1 symbolic"))
     if tier != "quick":
